@@ -9,9 +9,8 @@ import PV.C05.Thm
   * `parseR_rangesOk_partial` / `parseRExpression_rangesOk_partial`
                        for token spans that tile the source (what C05 proves of the lexer model: `tiled_of_lexer`),
                        every `plain` tree the parser returns passes `rangesOk` — all five structural clauses of the
-                       property, for every input and fuel, by induction over the parser;
-  * `parseR_rangesOkX` the same for … (see below) and `parseR_rangesOk_fails`: the full statement is false on the code
-                       as it is (listed finding `argwithdefault-range-excludes-default`);
+                       property, for every input and fuel, by induction over the parser (parameter defaults included
+                       since the /repo fix of `ParameterDef`: `argwithdefault_regression`);
   * `parseR_extent`    the range of the returned node is the span of the tokens consumed, up to enclosing parentheses
                        that are returned through, and the `NamedExpr` deviation (listed finding);
   * kernel-checked witnesses that the model reproduces the listed deviations from the reference extents.
@@ -151,29 +150,22 @@ theorem tiled_of_lexer {cfg : PV.Lexer.Cfg} (hs : cfg.up.Sane) {mode : PV.Lexer.
 
 /-! ### the trees the ranged parser returns pass `rangesOk` -/
 
-/-- **Structural half of the property for the model, unbounded (every clause but one).**  For every source, every token
-    list whose spans tile the source, every fuel: if the ranged parser accepts and the tree is `plain` (no f-string
-    pieces), then the tree passes `rangesOkX`: every node's range lies inside the input, on character boundaries,
-    start ≤ end, encloses the ranges of all nodes beneath it — the default value of a parameter excepted — and the
-    elements of every list field are in source order without overlap. -/
-theorem parseR_rangesOkX {src : List Nat} {toks : List RTok} (h : Tiled src toks) {fuel : Nat} {e : RExpr}
+/-- **Structural half of the property for the model, unbounded.**  For every source, every token list whose spans tile
+    the source, every fuel: if the ranged parser accepts and the tree is `plain` (no f-string pieces), then the tree
+    passes `rangesOk`: every node's range lies inside the input, on character boundaries, start ≤ end, encloses the
+    ranges of all nodes beneath it — including the default value of a parameter, since the /repo fix of
+    `ParameterDef` (former finding `argwithdefault-range-excludes-default`) — and the elements of every list field
+    are in source order without overlap. -/
+theorem parseR_rangesOk_partial {src : List Nat} {toks : List RTok} (h : Tiled src toks) {fuel : Nat} {e : RExpr}
     {rest : List Tok} (hp : parseR fuel toks = some (e, rest)) (hpl : plain e = true) :
-    rangesOkX src (e.toTree "body" false) = true := by
+    rangesOk src (e.toTree "body" false) = true := by
   have T := tiledTab_of_tiled h
   have hs := (soundAt T fuel).test (toks.map (·.tok)) e rest (by simp) (by unfold parseR at hp; exact hp)
-  exact (hs.2.1.2 hpl).toOkX_root "body" false
-
-/-- **Structural half of the property for the model, unbounded.**  …and when no parameter has a default value
-    (`noDefaultSlot`, a decidable property of the tree), the tree passes `rangesOk` itself: all five structural
-    clauses of the property. -/
-theorem parseR_rangesOk_partial {src : List Nat} {toks : List RTok} (h : Tiled src toks) {fuel : Nat} {e : RExpr}
-    {rest : List Tok} (hp : parseR fuel toks = some (e, rest)) (hpl : plain e = true)
-    (hnd : noDefaultSlot (e.toTree "body" false) = true) : rangesOk src (e.toTree "body" false) = true :=
-  rangesOk_of_rangesOkX src _ (parseR_rangesOkX h hp hpl) hnd
+  exact (hs.2.1.2 hpl).toOk_root "body" false
 
 /-- the same for whole-input parsing in expression mode (`Mode::Expression`) -/
-theorem parseRExpression_rangesOkX {src : List Nat} {toks : List RTok} (h : Tiled src toks) {e : RExpr}
-    (hp : parseRExpression toks = some e) (hpl : plain e = true) : rangesOkX src (e.toTree "body" false) = true := by
+theorem parseRExpression_rangesOk_partial {src : List Nat} {toks : List RTok} (h : Tiled src toks) {e : RExpr}
+    (hp : parseRExpression toks = some e) (hpl : plain e = true) : rangesOk src (e.toTree "body" false) = true := by
   have T := tiledTab_of_tiled h
   unfold parseRExpression at hp
   generalize fuelFor (toks.map (·.tok)) = fuel at hp
@@ -186,13 +178,8 @@ theorem parseRExpression_rangesOkX {src : List Nat} {toks : List RTok} (h : Tile
     · rename_i e' heq
       cases hp
       have hs := (soundAt T f).testList (toks.map (·.tok)) e [] (by simp) heq
-      exact (hs.2.1.2 hpl).toOkX_root "body" false
+      exact (hs.2.1.2 hpl).toOk_root "body" false
     · cases hp
-
-theorem parseRExpression_rangesOk_partial {src : List Nat} {toks : List RTok} (h : Tiled src toks) {e : RExpr}
-    (hp : parseRExpression toks = some e) (hpl : plain e = true)
-    (hnd : noDefaultSlot (e.toTree "body" false) = true) : rangesOk src (e.toTree "body" false) = true :=
-  rangesOk_of_rangesOkX src _ (parseRExpression_rangesOkX h hp hpl) hnd
 
 /-- non-vacuity: `f(é, k=1)` (bytes `66 28 c3 a9 2c 20 6b 3d 31 29`) is tiled by its seven tokens, parses, is plain -/
 def exSrc : List Nat := [0x66, 0x28, 0xc3, 0xa9, 0x2c, 0x20, 0x6b, 0x3d, 0x31, 0x29]
@@ -205,13 +192,13 @@ example : Tiled exSrc exToks := by
     simp only [exToks, List.mem_cons, List.not_mem_nil, or_false] at ht
     rcases ht with rfl | rfl | rfl | rfl | rfl | rfl | rfl | rfl <;> decide
   · simp [exToks]
-example : ((parseRExpression exToks).map fun e => (e.range, plain e, noDefaultSlot (e.toTree "body" false))) =
-    some ((0, 10), true, true) := by decide
+example : ((parseRExpression exToks).map fun e => (e.range, plain e)) = some ((0, 10), true) := by decide
 example : ((parseRExpression exToks).map fun e => rangesOk exSrc (e.toTree "body" false)) = some true := by decide
 
-/-! ### the full statement fails on the code as it is: a parameter default lies outside its `ArgWithDefault` -/
+/-! ### parameter defaults (repaired in /repo): the `ArgWithDefault` encloses its default -/
 
-/-- the structural clauses for EVERY tree of the fragment (what the property demands) -/
+/-- the structural clauses for EVERY tree of the fragment (what the property demands); `parseR_rangesOk_partial`
+    proves it for the trees without f-string pieces — stated, neither proved nor refuted for the others -/
 def parseR_rangesOk_full : Prop :=
   ∀ (src : List Nat) (toks : List RTok) (fuel : Nat) (e : RExpr) (rest : List Tok),
     Tiled src toks → parseR fuel toks = some (e, rest) → rangesOk src (e.toTree "body" false) = true
@@ -222,34 +209,32 @@ def defaultToks : List RTok :=
   [⟨.kw .lambda, 0, 6⟩, ⟨.name [97], 7, 8⟩, ⟨.op .assign, 8, 9⟩, ⟨.int 1, 9, 10⟩, ⟨.op .colon, 10, 11⟩,
    ⟨.name [97], 12, 13⟩]
 
-/-- Listed finding `argwithdefault-range-excludes-default`, reproduced by the model: `lambda a=1: a` is tiled by its
-    tokens and accepted, the `ArgWithDefault` is ranged 7..8 and its `default` child 9..10 lies outside it, so the
-    tree fails `rangesOk` — and only that clause fails: it passes `rangesOkX`. -/
-theorem argwithdefault_witness :
-    ((parseR 40 defaultToks).map fun p =>
-      (rangesOk defaultSrc (p.1.toTree "body" false), rangesOkX defaultSrc (p.1.toTree "body" false), plain p.1)) =
-      some (false, true, true) := by decide
+/-- the first `ArgWithDefault` of a lambda: (its range, the range of its `Arg`, the range of its default) -/
+def firstParamRanges : RExpr → Option ((Nat × Nat) × (Nat × Nat) × Option (Nat × Nat))
+  | .lambda _ _ _ (.mk rg drg _ d :: _) _ _ _ _ => some (rg, drg, d.map (·.range))
+  | _ => none
 
-theorem parseR_rangesOk_fails : ¬ parseR_rangesOk_full := by
-  intro hfull
-  have hT : Tiled defaultSrc defaultToks := by
-    refine ⟨?_, by simp [defaultToks]⟩
-    intro t ht
-    simp only [defaultToks, List.mem_cons, List.not_mem_nil, or_false] at ht
-    rcases ht with rfl | rfl | rfl | rfl | rfl | rfl <;> decide
-  cases hp : parseR 40 defaultToks with
-  | none =>
-    have := argwithdefault_witness
-    rw [hp] at this
-    cases this
-  | some p =>
-    obtain ⟨e, rest⟩ := p
-    have h1 := hfull defaultSrc defaultToks 40 e rest hT hp
-    have h2 := argwithdefault_witness
-    rw [hp] at h2
-    simp only [Option.map_some, Option.some.injEq, Prod.mk.injEq] at h2
-    rw [h1] at h2
-    cases h2.1
+/-- Former finding `argwithdefault-range-excludes-default`, now a regression example: `lambda a=1: a` is tiled by its
+    tokens and accepted; the `ArgWithDefault` is ranged 7..10 (`a=1`: name 7..8, default 9..10 inside it) and the
+    tree passes `rangesOk`.  Before the /repo fix the `ArgWithDefault` was 7..8 and `rangesOk` failed. -/
+theorem argwithdefault_regression :
+    ((parseR 40 defaultToks).map fun p => (rangesOk defaultSrc (p.1.toTree "body" false), plain p.1)) =
+      some (true, true) ∧
+    ((parseR 40 defaultToks).map fun p => firstParamRanges p.1) = some (some ((7, 10), (7, 8), some (9, 10))) := by
+  constructor <;> decide
+
+/-- `lambda a=(1): a` -/
+def parenDefaultToks : List RTok :=
+  [⟨.kw .lambda, 0, 6⟩, ⟨.name [97], 7, 8⟩, ⟨.op .assign, 8, 9⟩, ⟨.op .lpar, 9, 10⟩, ⟨.int 1, 10, 11⟩,
+   ⟨.op .rpar, 11, 12⟩, ⟨.op .colon, 12, 13⟩, ⟨.name [97], 14, 15⟩]
+
+/-- Listed finding `argwithdefault-range-excludes-default-closing-parenthesis` (what is left of the repaired one),
+    reproduced by the model: the `ArgWithDefault` ends at `default.end()`, the end of the default's NODE, so for a
+    parenthesised default it is 7..11 = `a=(1` — it encloses its children (`rangesOk` holds) but its text is not the
+    construct `a=(1)` 7..12. -/
+theorem argwithdefault_parenthesised_default_witness :
+    ((parseR 40 parenDefaultToks).map fun p => firstParamRanges p.1) =
+      some (some ((7, 11), (7, 8), some (10, 11))) := by decide
 
 /-! ### extents: the range of the returned node is the span of the tokens it was parsed from -/
 
